@@ -27,7 +27,7 @@ CHECKS = {
          "For all 30 text-bearing fields: fixed fields occupy exactly N bytes = truncate-then-NUL-pad of the encoded text; variable fields are NUL-padded multiples of 4 within the maximum; MST/MSX/MSL/MTC end in NUL for every string; decoding stops at the first NUL (also for hand-built field contents); both size modes; the SMX track field.",
          "Content expectation uses the implementation's own code-page encoding (judged by C10).", "DESIGN.md §4 C11", "E1"),
  "C12": ("exploration", "exhaustive enumeration of all strings to a length bound over a class alphabet",
-         "All strings of length <= 5 (quick) / <= 7 (thorough) over 16 class representatives (caret, digits, escape letters, reserved characters, code-page letters, Latin-1/E/J characters) and all strings <= 3 over every reserved character and escape letter: unescape(escape(s)) = s, no raw reserved character, escape -> encode -> decode -> unescape = s, strip = reference stripper and idempotent.",
+         "All strings of length <= 5 (quick) / <= 7 (thorough) over 16 class representatives (caret, digits, escape letters, reserved characters, code-page letters, Latin-1/E/J characters) all strings <= 3 over every reserved character and escape letter, and every character of the ten pages' repertoire right behind a caret / an escaped caret / in front of a colour code: unescape(escape(s)) = s, no raw reserved character, escape -> encode -> decode -> unescape = s, strip = reference stripper and idempotent.",
          "Strings longer than the bound or mixing other characters are outside the bound.", "DESIGN.md §4 C12", "E1"),
  "C13": ("exploration", "complete enumeration of the 2^32 input domain",
          "Thorough: all 2^32 four-byte values against the InSim v9 car-id rule written independently (decode class, exact re-encode, display name, is_mod/is_builtin). Quick: all 2^24 values with byte 3 = 0 plus all alphanumeric triples x 256.",
@@ -58,7 +58,7 @@ E2_CHECKS = {
          "Every single TINY (sub-type byte x request id), every kind's frame between two keep-alives, all sequences <= 3/4 over 5 frame kinds with every partition, the reply split/delayed on the write side, and sequences over {keep-alive, VER 9, VER 8, SMALL} with the version gate on, and the caller's own reads and writes dropped around a keep-alive: outbound bytes are exactly one pong per keep-alive handed over, accepted before the hand-over, and nothing for anything else.",
          "quick tier samples request ids for non-zero sub-types (all 256 for sub-type 0); thorough covers all.", "DESIGN.md §4 C07", "E2"),
  "C09": ("model_checking", "explicit-state search over version values x gate setting x position x implementation",
-         "All 256 InSim version values x verify on/off x {blocking, tokio} x 4 positions x 2 modes, whole and byte-by-byte delivery, pairs of VER packets (the gate applies to every one, not the first), the gate as set through the public builder (tcp and udp), a handshake (default and all-fields-changed ISI) in front of the reads, plus every other kind with the gate on: delivered iff (gate off or version 9), otherwise IncompatibleVersion(v); later packets unaffected.",
+         "All 256 InSim version values x verify on/off x {blocking, tokio} x 4 positions x 2 modes, whole and byte-by-byte delivery, pairs of VER packets (the gate applies to every one, not the first), the gate as set through the public builder (tcp and udp), a handshake (default and all-fields-changed ISI) or one written packet of every kind in front of the reads, 300 VERs on one connection, plus every other kind with the gate on: delivered iff (gate off or version 9), otherwise IncompatibleVersion(v); later packets unaffected.",
          "none", "DESIGN.md §4 C09", "E2"),
  "C19": ("model_checking", "explicit-state search over readiness scripts and cancellation points of the real async read future (polled by hand under a paused clock)",
          "For sequences over {keep-alive, SMALL, MSO}: at every suspension point the environment may deliver any k bytes / stay pending / accept any k reply bytes, and the caller may drop the read() future and start a new one (budget 2/4), or drop it and call write() instead (and drop that write too); 30 s clock steps below the 90 s timeout; the same drops anywhere in 9-16 kB sessions (buffer nearly full, reclaim): the packets returned by all completed reads equal the uninterrupted session's and the outbound bytes are always a whole number of pongs plus a prefix of the one in progress.",
@@ -75,7 +75,7 @@ CHECKS["C18"] = ("model_checking", "explicit-state search over all reachable sta
          "All builder states reachable with a 33-setter (quick) / 43-setter (thorough) alphabet - each flag helper on/off, wholesale flag replacement, prefix / interval / name / password / request id present or absent, tcp, udp with and without local address, compressed, uncompressed, relay - are explored; on every transition isi() must not panic and must equal the reference builder's ISI (documented defaults, later calls override earlier ones). 72 connects (tcp / udp without / with local address x mode x blocking/tokio x 6 ISI configurations) check that the peer receives exactly the encoded ISI and nothing else.",
          "Setter arguments are limited to 2-3 representatives each.", "DESIGN.md §4 C18", "E2")
 CHECKS["C20"] = ("model_checking", "exhaustive enumeration of message schedules (partitions, interleavings, read sizes) executed on real loopback WebSocket connections",
-         "Adaptor level: every partition of an 8/12-byte stream into binary messages x 8 caller read sizes, text / ping / empty-binary messages inserted at every boundary, 300 non-binary messages in a row, messages larger than the 1020-byte adaptor buffer: bytes read = concatenated binary payloads, close = 0-byte read. Connection level: frame sequences x message partitions give exactly the TCP reference results and Disconnected on close; every kind's packet (both modes, up to the largest counted frames) and sequences of writes leave as exactly one binary message per packet holding its frame.",
+         "Adaptor level: every partition of an 8/12-byte stream into binary messages x 8 caller read sizes, text / ping / empty-binary messages inserted at every boundary, 300 non-binary messages in a row, messages larger than the 1020-byte adaptor buffer (up to 200 000 bytes): bytes read = concatenated binary payloads, close = 0-byte read. Connection level: frame sequences x message partitions give exactly the TCP reference results and Disconnected on close; every kind's packet (both modes, up to the largest counted frames) and sequences of writes leave as exactly one binary message per packet holding its frame.",
          "Loopback TCP with a tungstenite server inside the harness; 2 s watchdog on every await.", "DESIGN.md §4 C20", "E2")
 
 NOT_BUILT = {}
